@@ -544,7 +544,7 @@ func init() {
 				Assumptions: []string{"when both the group is unknown and the user exists, either documented error is accepted"}}
 		},
 		CrashIsViolation: true,
-		OSShards: 1,
+		OSShards:         1,
 		Run: func(c *rt.Ctx) {
 			hook.Sequential()
 			if os.Getenv("VERIF_PART") == "os" {
